@@ -245,8 +245,15 @@ func (root *Root) regField(obj *Object, fd *FieldDef, goField string, args ...st
 			return
 		}
 	}
-	for i := objMeta.NumMethod() - 1; 0 <= i; i-- {
-		m := objMeta.Method(i)
+	mt := objMeta
+	if mt.Kind() != reflect.Ptr {
+		// The type was bound by a struct value. Methods with a pointer
+		// receiver are methods of the type as well, a value is copied for the
+		// call.
+		mt = reflect.PtrTo(mt)
+	}
+	for i := mt.NumMethod() - 1; 0 <= i; i-- {
+		m := mt.Method(i)
 		if strings.EqualFold(m.Name, goField) {
 			fd.method = &m.Func
 			break
